@@ -233,7 +233,9 @@ func c16Item(g *Gen) ap.Item {
 	case 4:
 		return &ap.Link{Href: ap.IRI(id), Type: ap.MentionType}
 	case 5:
-		return &ap.Link{ID: ap.IRI(id), Type: ap.LinkType}
+		// a Link struct with an id stays a link whatever its type name says (a "Hashtag", or none: IsLink() and IsObject()
+		// both answer false for those)
+		return &ap.Link{ID: ap.IRI(id), Type: []ap.ActivityVocabularyType{ap.LinkType, "Hashtag", "", ap.MentionType}[g.Intn(4)], Href: "https://example.org/elsewhere"}
 	default:
 		return c16Embedded(g, id)
 	}
